@@ -443,7 +443,9 @@ func (p *PIDZero) reap() error {
 				return nil // exit reap loop
 			case syscall.SIGHUP: // Reload runnables on SIGHUP
 				p.logger.Debug("Received signal", "signal", sig)
-				go p.ReloadAll()
+				if p.hasReloadable() {
+					go p.ReloadAll()
+				}
 				continue // keep on reaping!
 			default:
 				p.logger.Debug("Unhandled signal received", "signal", sig)
